@@ -157,6 +157,20 @@ def main(argv=None):
   # ---- 2. implementation runs + monitors ------------------------------------------------------
   corpus = load_corpus(pid)
   gen = list(mod.gen_cases(tier, seed))
+  # anchored source files that differ from the fingerprints recorded when model and code were last reconciled: the
+  # quick tier then samples three seeds' worth of generated cases instead of one (a changed file is where a broken
+  # property or a stale model is most likely, and the correspondence is only as good as its sample)
+  drift = C.source_drift(pid)
+  escalated = 0
+  if drift and tier == 'quick' and not os.environ.get('VERIF_NO_ESCALATE'):
+    seen = set(C.canon(c) for c in gen)
+    for k in (1, 2):
+      for c in mod.gen_cases(tier, seed + k):
+        key = C.canon(c)
+        if key not in seen:
+          seen.add(key)
+          gen.append(c)
+          escalated += 1
   cases = corpus + gen
   results = run_cases(mod, cases)
   obs = [r[0] for r in results]
@@ -293,7 +307,8 @@ def main(argv=None):
       rule=getattr(mod, 'RULE', ''), samples=samples or [{'note': 'no cases'}],
       traces_validated_against_impl=len(terms), cases_not_sent_to_model=skipped,
       corpus_cases=len(corpus), case_kinds=dict(kinds), diverging_cases=len(diverging),
-      monitor_violations=len(viol), searched_extra_cases=searched, broken=broken, **stats)
+      monitor_violations=len(viol), searched_extra_cases=searched, broken=broken,
+      anchored_sources_changed=drift, extra_cases_because_sources_changed=escalated, **stats)
   if 'coqchk' in proof:
     coverage['coqchk'] = proof['coqchk']
   if not proof['ok']:
@@ -305,6 +320,8 @@ def main(argv=None):
   print('%s tier=%s seed=%s proof=%s theorems=%d cases=%d model-compared=%d diverging=%d monitor-violations=%d wall=%.1fs' %
         (pid, tier, seed, 'ok' if proof['ok'] else 'BROKEN', len(proof['theorems']), len(cases), len(terms),
          len(diverging), len(viol), time.time() - t0))
+  if drift:
+    print('  note: anchored source changed since the model was last reconciled (%s); sampled %d extra cases' % (', '.join(drift), escalated))
   if broken:
     for b in broken:
       print('  broken: ' + b[:400])
